@@ -32,56 +32,56 @@ attribute [local simp] stAuthInvalid stPostBody stReqToEvent stBatchToEvent stBa
 
 /-! ## the event loop -/
 
-theorem loop_sts_length (chk : Bool) (items : List Item) (k : Nat) :
-    (loop chk k items).sts.length = items.length := by
+theorem loop_sts_length (l : Listener) (chk : Bool) (items : List Item) (k : Nat) :
+    (loop l chk k items).sts.length = items.length := by
   induction items generalizing k with
   | nil => simp [loop]
   | cons it rest ih => simp [loop, ih]
 
-theorem loop_sent_ge (chk : Bool) (items : List Item) (k : Nat) :
-    ∀ p ∈ (loop chk k items).eff.sent, k ≤ p.1 := by
+theorem loop_sent_ge (l : Listener) (chk : Bool) (items : List Item) (k : Nat) :
+    ∀ p ∈ (loop l chk k items).eff.sent, k ≤ p.1 := by
   induction items generalizing k with
   | nil => simp [loop]
   | cons it rest ih =>
     intro p hp
     simp only [loop, List.mem_append] at hp
     rcases hp with hp | hp
-    · cases hs : (itemRes chk it).sink <;> simp [hs] at hp
+    · cases hs : (itemRes l chk it).sink <;> simp [hs] at hp
       subst hp; exact Nat.le_refl _
     · have := ih (k + 1) p hp; omega
 
-theorem loop_refused_ge (chk : Bool) (items : List Item) (k : Nat) :
-    ∀ i ∈ (loop chk k items).eff.refused, k ≤ i := by
+theorem loop_refused_ge (l : Listener) (chk : Bool) (items : List Item) (k : Nat) :
+    ∀ i ∈ (loop l chk k items).eff.refused, k ≤ i := by
   induction items generalizing k with
   | nil => simp [loop]
   | cons it rest ih =>
     intro i hi
     simp only [loop, List.mem_append] at hi
     rcases hi with hi | hi
-    · cases hs : (itemRes chk it).refused <;> simp [hs] at hi
+    · cases hs : (itemRes l chk it).refused <;> simp [hs] at hi
       subst hi; exact Nat.le_refl _
     · have := ih (k + 1) i hi; omega
 
-theorem loop_attempts_ge (chk : Bool) (items : List Item) (k : Nat) :
-    ∀ i ∈ (loop chk k items).eff.attempts, k ≤ i := by
+theorem loop_attempts_ge (l : Listener) (chk : Bool) (items : List Item) (k : Nat) :
+    ∀ i ∈ (loop l chk k items).eff.attempts, k ≤ i := by
   induction items generalizing k with
   | nil => simp [loop]
   | cons it rest ih =>
     intro i hi
     simp only [loop, List.mem_append] at hi
     rcases hi with hi | hi
-    · cases hs : (itemRes chk it).attempted <;> simp [hs] at hi
+    · cases hs : (itemRes l chk it).attempted <;> simp [hs] at hi
       subst hi; exact Nat.le_refl _
     · have := ih (k + 1) i hi; omega
 
 /-- The loop, event by event: the `j`-th event's status, sink, refusal and attempt are exactly
 those of its own iteration. -/
-theorem loop_spec (chk : Bool) (items : List Item) :
+theorem loop_spec (l : Listener) (chk : Bool) (items : List Item) :
     ∀ (k j : Nat) (it : Item), items[j]? = some it →
-      (loop chk k items).sts[j]? = some (itemRes chk it).status ∧
-      (∀ s, (k + j, s) ∈ (loop chk k items).eff.sent ↔ (itemRes chk it).sink = some s) ∧
-      (k + j ∈ (loop chk k items).eff.refused ↔ (itemRes chk it).refused = true) ∧
-      (k + j ∈ (loop chk k items).eff.attempts ↔ (itemRes chk it).attempted = true) := by
+      (loop l chk k items).sts[j]? = some (itemRes l chk it).status ∧
+      (∀ s, (k + j, s) ∈ (loop l chk k items).eff.sent ↔ (itemRes l chk it).sink = some s) ∧
+      (k + j ∈ (loop l chk k items).eff.refused ↔ (itemRes l chk it).refused = true) ∧
+      (k + j ∈ (loop l chk k items).eff.attempts ↔ (itemRes l chk it).attempted = true) := by
   induction items with
   | nil => intro k j it h; simp at h
   | cons it0 rest ih =>
@@ -90,29 +90,29 @@ theorem loop_spec (chk : Bool) (items : List Item) :
     | zero =>
       simp only [List.getElem?_cons_zero, Option.some.injEq] at h
       subst h
-      have h1 := loop_sent_ge chk rest (k + 1)
-      have h2 := loop_refused_ge chk rest (k + 1)
-      have h3 := loop_attempts_ge chk rest (k + 1)
+      have h1 := loop_sent_ge l chk rest (k + 1)
+      have h2 := loop_refused_ge l chk rest (k + 1)
+      have h3 := loop_attempts_ge l chk rest (k + 1)
       refine ⟨by simp [loop], ?_, ?_, ?_⟩
       · intro s
         simp only [loop, Nat.add_zero, List.mem_append]
         constructor
         · rintro (hm | hm)
-          · cases hs : (itemRes chk it0).sink <;> simp [hs] at hm
+          · cases hs : (itemRes l chk it0).sink <;> simp [hs] at hm
             simp [hm]
           · have := h1 _ hm; simp at this; omega
         · intro hs; left; simp [hs]
       · simp only [loop, Nat.add_zero, List.mem_append]
         constructor
         · rintro (hm | hm)
-          · cases hs : (itemRes chk it0).refused <;> simp [hs] at hm
+          · cases hs : (itemRes l chk it0).refused <;> simp [hs] at hm
             rfl
           · have := h2 _ hm; omega
         · intro hs; left; simp [hs]
       · simp only [loop, Nat.add_zero, List.mem_append]
         constructor
         · rintro (hm | hm)
-          · cases hs : (itemRes chk it0).attempted <;> simp [hs] at hm
+          · cases hs : (itemRes l chk it0).attempted <;> simp [hs] at hm
             rfl
           · have := h3 _ hm; omega
         · intro hs; left; simp [hs]
@@ -126,7 +126,7 @@ theorem loop_spec (chk : Bool) (items : List Item) :
         simp only [loop, List.mem_append]
         constructor
         · rintro (hm | hm)
-          · cases hs : (itemRes chk it0).sink <;> simp [hs] at hm
+          · cases hs : (itemRes l chk it0).sink <;> simp [hs] at hm
             omega
           · exact hm
         · intro hm; right; exact hm
@@ -134,7 +134,7 @@ theorem loop_spec (chk : Bool) (items : List Item) :
         simp only [loop, List.mem_append]
         constructor
         · rintro (hm | hm)
-          · cases hs : (itemRes chk it0).refused <;> simp [hs] at hm
+          · cases hs : (itemRes l chk it0).refused <;> simp [hs] at hm
             omega
           · exact hm
         · intro hm; right; exact hm
@@ -142,13 +142,13 @@ theorem loop_spec (chk : Bool) (items : List Item) :
         simp only [loop, List.mem_append]
         constructor
         · rintro (hm | hm)
-          · cases hs : (itemRes chk it0).attempted <;> simp [hs] at hm
+          · cases hs : (itemRes l chk it0).attempted <;> simp [hs] at hm
             omega
           · exact hm
         · intro hm; right; exact hm
 
 /-- without the emptiness test (the OTLP loops) every event is handed to `processEvent` -/
-theorem itemRes_attempted (it : Item) : (itemRes false it).attempted = true := by
+theorem itemRes_attempted (l : Listener) (it : Item) : (itemRes l false it).attempted = true := by
   cases it <;> simp [itemRes, processEvent]
 
 /-! ## error_status_no_effects -/
@@ -156,7 +156,7 @@ theorem itemRes_attempted (it : Item) : (itemRes false it).attempted = true := b
 /-- **error_status_no_effects** (full statement): an error status for the request as a whole ⇒
 none of its events was forwarded or buffered. -/
 def ErrorStatusNoEffects (fixed : Bool) : Prop :=
-  ∀ r : Req, (handle fixed r).isError = true → (handle fixed r).eff.sent = []
+  ∀ (l : Listener) (r : Req), (handle fixed l r).isError = true → (handle fixed l r).eff.sent = []
 
 /-- Refuted on the code as it is: `POST /1/batch/<undecodable dataset>` with one ordinary event is
 answered 400 and the event is sent upstream all the same. -/
@@ -174,7 +174,7 @@ theorem error_status_no_effects_refuted_env : ¬ ErrorStatusNoEffects false := b
 /-- What holds of the code as it is: every request that does not reach one of `batch`'s two
 missing `return`s. -/
 theorem error_status_no_effects_partial (r : Req) (hd : hitsBatchDefect r = false)
-    (he : (handle false r).isError = true) : (handle false r).eff.sent = [] := by
+    (he : (handle false l r).isError = true) : (handle false l r).eff.sent = [] := by
   cases r with
   | event viaMux f it =>
     simp only [handle, handleEvent] at he ⊢
@@ -225,7 +225,7 @@ theorem error_status_no_effects_fixed : ErrorStatusNoEffects true := by
 /-! ## one_status -/
 
 /-- **one_status** (full statement): each request receives exactly one answer. -/
-def OneStatus (fixed : Bool) : Prop := ∀ r : Req, (handle fixed r).answers = 1
+def OneStatus (fixed : Bool) : Prop := ∀ (l : Listener) (r : Req), (handle fixed l r).answers = 1
 
 /-- Refuted on the code as it is: the bad-dataset batch gets the error document *and* the status
 list. -/
@@ -235,19 +235,19 @@ theorem one_status_refuted : ¬ OneStatus false := by
   revert this; decide
 
 theorem answers_event (viaMux : Bool) (f : Faults) (it : Item) :
-    (handleEvent viaMux f it).answers = 1 := by
+    (handleEvent l viaMux f it).answers = 1 := by
   simp only [handleEvent]
   repeat' split
   all_goals simp [Out.answers]
 
 theorem answers_otlpHttp (fixed logs : Bool) (f : Faults) (items : List Item) :
-    (handleOtlpHttp fixed logs f items).answers = 1 := by
+    (handleOtlpHttp fixed l logs f items).answers = 1 := by
   simp only [handleOtlpHttp, processOTLP]
   repeat' split
   all_goals simp [Out.answers]
 
 theorem answers_otlpGrpc (fixed logs : Bool) (f : Faults) (items : List Item) :
-    (handleOtlpGrpc fixed logs f items).answers = 1 := by
+    (handleOtlpGrpc fixed l logs f items).answers = 1 := by
   simp only [handleOtlpGrpc, processOTLP]
   repeat' split
   all_goals simp [Out.answers]
@@ -255,7 +255,7 @@ theorem answers_otlpGrpc (fixed logs : Bool) (f : Faults) (items : List Item) :
 /-- What holds of the code as it is: exactly one answer for every request that does not reach one
 of `batch`'s missing `return`s … -/
 theorem one_status_partial (r : Req) (hd : hitsBatchDefect r = false) :
-    (handle false r).answers = 1 := by
+    (handle false l r).answers = 1 := by
   cases r with
   | event viaMux f it => exact answers_event viaMux f it
   | batch viaMux f items =>
@@ -268,7 +268,7 @@ theorem one_status_partial (r : Req) (hd : hitsBatchDefect r = false) :
 
 /-- … and the hypothesis is exact: every request that does reach one gets at least two. -/
 theorem one_status_defect_exact (r : Req) (hd : hitsBatchDefect r = true) :
-    2 ≤ (handle false r).answers := by
+    2 ≤ (handle false l r).answers := by
   cases r with
   | batch viaMux f items =>
     simp only [handle, handleBatch, hitsBatchDefect] at hd ⊢
@@ -300,8 +300,8 @@ def Reported (o : Out) (i : Nat) : Prop := ∃ sts, Act.list sts ∈ o.acts ∧ 
 /-- **no_success_after_discard** (full statement): if the request is answered success, every one of
 its events was handed to `processEvent` or is answered individually in the status list. -/
 def NoSuccessAfterDiscard (fixed : Bool) : Prop :=
-  ∀ r : Req, (handle fixed r).isError = false →
-    ∀ i, i < r.items.length → i ∈ (handle fixed r).eff.attempts ∨ Reported (handle fixed r) i
+  ∀ (l : Listener) (r : Req), (handle fixed l r).isError = false →
+    ∀ i, i < r.items.length → i ∈ (handle fixed l r).eff.attempts ∨ Reported (handle fixed l r) i
 
 /-- Refuted on the code as it is: an OTLP/HTTP trace export whose key's environment cannot be
 looked up is answered 200 although its span was never looked at. -/
@@ -317,31 +317,31 @@ theorem no_success_after_discard_refuted_all (r : Req)
     (hr : r = .otlpHttp true { envFails := true } [.nonTrace] ∨
           r = .otlpGrpc false { envFails := true } [.peer] ∨
           r = .otlpGrpc true { envFails := true } [.localOk]) :
-    (handle false r).isError = false ∧ (handle false r).eff.attempts = [] ∧
-      ¬ Reported (handle false r) 0 := by
+    (handle false l r).isError = false ∧ (handle false l r).eff.attempts = [] ∧
+      ¬ Reported (handle false l r) 0 := by
   rcases hr with rfl | rfl | rfl <;>
     refine ⟨by decide, by decide, ?_⟩ <;>
     rintro ⟨sts, h2, _⟩ <;>
     simp [handle, handleOtlpHttp, handleOtlpGrpc, processOTLP] at h2
 
 theorem attempts_loop_false (items : List Item) (i : Nat) (hi : i < items.length) :
-    i ∈ (loop false 0 items).eff.attempts := by
+    i ∈ (loop l false 0 items).eff.attempts := by
   have hg : items[i]? = some items[i] := List.getElem?_eq_getElem hi
-  have := (loop_spec false items 0 i _ hg).2.2.2
+  have := (loop_spec l false items 0 i _ hg).2.2.2
   rw [Nat.zero_add] at this
-  exact this.mpr (itemRes_attempted _)
+  exact this.mpr (itemRes_attempted l _)
 
 theorem nsad_event (viaMux : Bool) (f : Faults) (it : Item)
-    (hs : (handleEvent viaMux f it).isError = false) :
-    0 ∈ (handleEvent viaMux f it).eff.attempts := by
+    (hs : (handleEvent l viaMux f it).isError = false) :
+    0 ∈ (handleEvent l viaMux f it).eff.attempts := by
   simp only [handleEvent] at hs ⊢
   repeat' split
   all_goals simp_all [Out.isError, Act.isError]
 
 theorem nsad_batch (fixed viaMux : Bool) (f : Faults) (items : List Item)
-    (hs : (handleBatch fixed viaMux f items).isError = false) (i : Nat) (hi : i < items.length) :
-    Reported (handleBatch fixed viaMux f items) i := by
-  have hl := loop_sts_length true items 0
+    (hs : (handleBatch fixed l viaMux f items).isError = false) (i : Nat) (hi : i < items.length) :
+    Reported (handleBatch fixed l viaMux f items) i := by
+  have hl := loop_sts_length l true items 0
   simp only [handleBatch] at hs ⊢
   rcases f with ⟨kb, rf, db, ef, pf, cb⟩
   cases fixed <;> cases viaMux <;> cases kb <;> cases rf <;> cases db <;> cases ef <;> cases pf <;>
@@ -350,8 +350,8 @@ theorem nsad_batch (fixed viaMux : Bool) (f : Faults) (items : List Item)
 /-- What holds of the code as it is: every request that does not reach the `return nil` of
 `processOTLPRequest*`. -/
 theorem no_success_after_discard_partial (r : Req) (hd : hitsOtlpDefect r = false)
-    (hs : (handle false r).isError = false) (i : Nat) (hi : i < r.items.length) :
-    i ∈ (handle false r).eff.attempts ∨ Reported (handle false r) i := by
+    (hs : (handle false l r).isError = false) (i : Nat) (hi : i < r.items.length) :
+    i ∈ (handle false l r).eff.attempts ∨ Reported (handle false l r) i := by
   cases r with
   | event viaMux f it =>
     simp only [Req.items, List.length_singleton, Nat.lt_one_iff] at hi
@@ -401,8 +401,8 @@ theorem no_success_after_discard_fixed : NoSuccessAfterDiscard true := by
 
 /-- a status list written by `batch` is the loop's list, and the effects are the loop's effects -/
 theorem batch_list_is_loop (fixed viaMux : Bool) (f : Faults) (items : List Item) (sts : List Int)
-    (h : Act.list sts ∈ (handleBatch fixed viaMux f items).acts) :
-    sts = (loop true 0 items).sts ∧ (handleBatch fixed viaMux f items).eff = (loop true 0 items).eff := by
+    (h : Act.list sts ∈ (handleBatch fixed l viaMux f items).acts) :
+    sts = (loop l true 0 items).sts ∧ (handleBatch fixed l viaMux f items).eff = (loop l true 0 items).eff := by
   simp only [handleBatch] at h ⊢
   rcases f with ⟨kb, rf, db, ef, pf, cb⟩
   cases fixed <;> cases viaMux <;> cases kb <;> cases rf <;> cases db <;> cases ef <;> cases pf <;>
@@ -417,57 +417,57 @@ exactly the events for which the collector is full; 400 exactly when the event i
 data); and the event went to a sink exactly when it is non-empty and `processEvent` sends it
 there. -/
 theorem batch_status_list (fixed viaMux : Bool) (f : Faults) (items : List Item) (sts : List Int)
-    (h : Act.list sts ∈ (handle fixed (.batch viaMux f items)).acts) :
+    (h : Act.list sts ∈ (handle fixed l (.batch viaMux f items)).acts) :
     sts.length = items.length ∧
     ∀ (i : Nat) (it : Item), items[i]? = some it →
-      let o := handle fixed (.batch viaMux f items)
+      let o := handle fixed l (.batch viaMux f items)
       (sts[i]? = some stAccepted ∨ sts[i]? = some stTooManyRequests ∨ sts[i]? = some stBadRequest) ∧
       (sts[i]? = some stAccepted ↔ ((∃ s, (i, s) ∈ o.eff.sent) ∨ it = .probe)) ∧
       (sts[i]? = some stTooManyRequests ↔ i ∈ o.eff.refused) ∧
       (i ∈ o.eff.refused ↔ it = .localFull) ∧
       (sts[i]? = some stBadRequest ↔ it = .emptyData) ∧
-      (∀ s, (i, s) ∈ o.eff.sent ↔ (it ≠ .emptyData ∧ processEvent it = .sent s)) := by
+      (∀ s, (i, s) ∈ o.eff.sent ↔ (it ≠ .emptyData ∧ processEvent l it = .sent s)) := by
   simp only [handle] at h ⊢
   obtain ⟨e1, e2⟩ := batch_list_is_loop fixed viaMux f items sts h
-  refine ⟨by rw [e1]; exact loop_sts_length true items 0, ?_⟩
+  refine ⟨by rw [e1]; exact loop_sts_length l true items 0, ?_⟩
   intro i it hit
-  obtain ⟨a, b, c, _⟩ := loop_spec true items 0 i it hit
+  obtain ⟨a, b, c, _⟩ := loop_spec l true items 0 i it hit
   simp only [Nat.zero_add] at b c
   simp only [e2, e1, a, b, c]
   cases it <;> simp [itemRes, processEvent]
 
 /-- On the fault-free path the status list is the whole response (code as it is and repaired). -/
 theorem batch_fault_free (fixed viaMux : Bool) (items : List Item) :
-    (handle fixed (.batch viaMux {} items)).acts = [.list (loop true 0 items).sts] := by
+    (handle fixed l (.batch viaMux {} items)).acts = [.list (loop l true 0 items).sts] := by
   cases fixed <;> cases viaMux <;> simp [handle, handleBatch]
 
 /-- A full queue on the single-event endpoint is answered with an error status and nothing was
 buffered (both variants). -/
 theorem event_queue_full (fixed viaMux : Bool) :
-    (handle fixed (.event viaMux {} .localFull)).isError = true ∧
-      (handle fixed (.event viaMux {} .localFull)).eff.sent = [] := by
+    (handle fixed l (.event viaMux {} .localFull)).isError = true ∧
+      (handle fixed l (.event viaMux {} .localFull)).eff.sent = [] := by
   cases fixed <;> cases viaMux <;> decide
 
 /-! ## Non-vacuity: concrete requests, evaluated by the kernel -/
 
 -- the defect as observed on the real handler: 400, error document, then the status list; one event
 -- upstream, one span in the collector
-example : handle false (.batch false { datasetBad := true } [.nonTrace, .localOk]) =
+example : handle false l (.batch false { datasetBad := true } [.nonTrace, .localOk]) =
     ⟨[.err 400, .list [202, 202]], { sent := [(0, .upstream), (1, .collector)], attempts := [0, 1] }⟩ := by
   decide
-example : handle true (.batch false { datasetBad := true } [.nonTrace, .localOk]) = ⟨[.err 400], {}⟩ := by
+example : handle true l (.batch false { datasetBad := true } [.nonTrace, .localOk]) = ⟨[.err 400], {}⟩ := by
   decide
-example : handle false (.batch true { envFails := true, parseFails := true } []) =
+example : handle false l (.batch true { envFails := true, parseFails := true } []) =
     ⟨[.err 400, .err 400], {}⟩ := by decide
-example : handle false (.batch true {} [.emptyData, .noData, .nonTrace, .peer, .localOk, .localFull, .probe]) =
+example : handle false l (.batch true {} [.emptyData, .noData, .nonTrace, .peer, .localOk, .localFull, .probe]) =
     ⟨[.list [400, 202, 202, 202, 202, 429, 202]],
      { sent := [(1, .upstream), (2, .upstream), (3, .peer), (4, .collector)], refused := [5],
        attempts := [1, 2, 3, 4, 5, 6] }⟩ := by decide
-example : handle false (.otlpHttp false { envFails := true } [.peer, .localOk]) = ⟨[.otlpOk], {}⟩ := by decide
-example : handle true (.otlpHttp false { envFails := true } [.peer, .localOk]) = ⟨[.otlpFail 500], {}⟩ := by decide
-example : handle false (.otlpGrpc true {} [.nonTrace, .localFull]) =
+example : handle false l (.otlpHttp false { envFails := true } [.peer, .localOk]) = ⟨[.otlpOk], {}⟩ := by decide
+example : handle true l (.otlpHttp false { envFails := true } [.peer, .localOk]) = ⟨[.otlpFail 500], {}⟩ := by decide
+example : handle false l (.otlpGrpc true {} [.nonTrace, .localFull]) =
     ⟨[.grpc 0], { sent := [(0, .upstream)], refused := [1], attempts := [0, 1] }⟩ := by decide
-example : handle false (.event true {} .peer) = ⟨[], { sent := [(0, .peer)], attempts := [0] }⟩ := by decide
+example : handle false l (.event true {} .peer) = ⟨[], { sent := [(0, .peer)], attempts := [0] }⟩ := by decide
 example : hitsBatchDefect (.batch true { keyBlank := true, datasetBad := true } []) = false := by decide
 
 end Refinery.Props.C23
